@@ -523,9 +523,10 @@ func workflowize(r *mon.Rand, o GenOpts, g *GraphSpec) {
 		if n.Kind != Passthrough {
 			continue
 		}
+		// (an input that is field-mapped carries parts of a value and tells nothing about the node's type)
 		hasData := false
 		for _, e := range g.Edges {
-			if e.To == n.Key && !e.NoData {
+			if e.To == n.Key && !e.NoData && len(e.Fields) == 0 {
 				hasData = true
 			}
 		}
